@@ -27,7 +27,7 @@ ANCHORS = [
     ('vivarium/core/engine.py', ['Engine._process_state', 'Engine._send_updates', 'Engine.run_steps',
                                  'Engine.apply_update', 'Engine._calculate_update']),
 ]
-BUDGET = {'quick': 220, 'thorough': 8000}
+BUDGET = {'quick': 400, 'thorough': 8000}
 RULE = ('cases: the C06 generator (valid stream) plus two glob stores the probe watches through glob ports '
         '(tuple, {"*": path}, dictionary sub-topology with renames), extra undeclared variables, and a '
         'history of 3-6 steps in which an actor process issues 1-2 structural updates per step '
